@@ -59,6 +59,7 @@ pub fn generate(prop: &str, tier: Tier, seed: u64, run: u64) -> Trace {
         "C10" if run % 4 == 3 => crate::gen_load::gen_load("C10", &mut rng, run, thorough),
         "C10" => crate::gen_term::gen_term("C10", &mut rng, run, thorough),
         "C02" => crate::gen_load::gen_load("C02", &mut rng, run, thorough),
+        "C20" => crate::gen_gfx::gen_c20(&mut rng, run, thorough),
         "C03" if run % 4 == 3 => crate::gen_load::gen_load("C03", &mut rng, run, thorough),
         "C16" => crate::gen_term::gen_term("C16", &mut rng, run, thorough),
         "C03" => crate::gen_term::gen_c03(&mut rng, run, thorough),
